@@ -102,8 +102,36 @@ func (hostsafe) Describe() core.EngineInfo {
 
 var hsBudgets = []int64{30, 300, 3000, 200000, 200000, 200000}
 
+// bigSource: a source beyond 65535 lines (or with a line beyond 65535 columns) whose code, and
+// whose run-time fault, sit past that mark. Not capped to 16 KiB like the other sources.
+func bigSource(r *core.PRNG) []byte {
+	n := core.Pick(r, []int{65530, 65534, 65535, 65536, 65537, 65540, 70000, 131071, 131072, 131075})
+	fill := strings.Repeat("\n", n)
+	switch r.Intn(4) {
+	case 0:
+		fill = strings.Repeat("//\n", n)
+	case 1:
+		fill = strings.Repeat(" ", n) // one long line: columns instead of lines
+	}
+	fault := core.Pick(r, []string{"return 1 / a", "var m map[string]int; m[\"k\"] = a; return a", "xs := []int{1}; return xs[a + 5]", "var f func() int; return f()", "panic(\"late\")", "return a"})
+	switch r.Intn(5) {
+	case 0:
+		return []byte(fill + "x()")
+	case 1:
+		return []byte("func f() int { a := 0; " + fill + fault + " }; f()")
+	case 2:
+		return []byte(fill + "func f() int { a := 0; " + fault + " }; f()")
+	case 3:
+		return []byte("type T struct { A int }; func (t *T) m() int { a := t.A; " + fill + fault + " }; t := &T{}; println(t.m())")
+	}
+	return []byte("g := func() int { a := 0; " + fill + fault + " }; " + fill + "g()")
+}
+
 func (e hostsafe) genSource(r *core.PRNG) ([]byte, string) {
 	c := Corpus()
+	if r.Chance(1, 250) {
+		return bigSource(r.Fork()), "none"
+	}
 	var src []byte
 	switch n := r.Intn(27); {
 	case n >= 25:
